@@ -21,7 +21,7 @@ class ServerPeer:
       hs_extra: bytes delivered in the same segment as the response
       timeline: [[dt, ["data", bytes] | ["eof"] | ["rst"]], ...]   dt relative to establishment
       pong: list of latencies per ping (None = no pong); default_pong latency for the rest (None = silent)
-      close: ["reply", delay] | ["never"]      reaction to a client-initiated close
+      close: ["reply", delay] | ["never"] | ["stream", period, count]     reaction to a client-initiated close
       eof_after_close: delay between our close reply / receipt of the client's reply and TCP close (0.0)
       chatty: [interval, count, bytes]  keeps sending after establishment
     """
@@ -124,7 +124,8 @@ class ServerPeer:
                 lat = lats[i] if i < len(lats) else self.spec.get("default_pong", 0.01)
                 if lat is not None:
                     pl = f.payload
-                    self._later(lat, lambda pl=pl: self.deliver(rm.encode_frame(1, rm.PONG, pl)))
+                    pre = self.spec.get("pong_prefix", b"")  # frames sent in the same segment, ahead of the pong
+                    self._later(lat, lambda pl=pl: self.deliver(pre + rm.encode_frame(1, rm.PONG, pl)))
             elif f.opcode == rm.CLOSE:
                 self.client_close_frames.append((self.s.now, f.payload))
                 self.got_close = True
@@ -142,6 +143,14 @@ class ServerPeer:
                             self._later(gap, self.sock.peer_eof)
 
                         self._later(pol[1], reply)
+                    elif pol[0] == "stream":
+                        # never answers the close frame and keeps sending data every pol[1] seconds (until the client hangs up)
+                        def more(k=0):
+                            if self.client_closed_at is None and self.client_shutdown_at is None and k < pol[2] and not self.sock.closed:
+                                self.deliver(rm.encode_frame(1, rm.TEXT, b"still talking"))
+                                self._later(pol[1], lambda: more(k + 1))
+
+                        self._later(pol[1], more)
 
     def on_client_shutdown(self, sock):
         self.client_shutdown_at = self.s.now
